@@ -27,6 +27,7 @@ int ret(int id, int snap, const void* a1, const void* a2) { log_clause('R', id, 
 int& retref(int id, int snap, int& target, const void* a1) { log_clause('R', id, 0, snap, a1, &target); point(); return target; }
 const int& retcref(int id, int snap, const int& target, const void* a1) { log_clause('R', id, 0, snap, a1, &target); point(); return target; }
 std::string rets(int id, int snap, const void* a1) { log_clause('R', id, 0, snap, a1, nullptr); point(); return std::to_string(id * 8 + (snap & 7)); }
+std::string& retsr(int id, int snap, std::string& target, const void* a1) { log_clause('R', id, 0, snap, a1, &target); point(); return target; }
 std::runtime_error thr_std(int id, int snap) { log_clause('R', id, 0, snap, nullptr, nullptr); point(); return std::runtime_error("inst " + std::to_string(id)); }
 int thr_int(int id, int snap) { log_clause('R', id, 0, snap, nullptr, nullptr); point(); return id; }
 
@@ -117,6 +118,7 @@ void ExecImpl::run(const Plan& p) {
   const auto& ops = p.tasks[0];
   size_t i = 0;
   while (i < ops.size() && !stop) i = run_range(ops, i, 0);
+  if (!stop && !shadow) bury_moved_from_seqs();
 }
 
 // Executes ops[i..] until the end, or until the end_scope that closes this nesting level (consumed). A scoped
@@ -225,7 +227,7 @@ void ExecImpl::step(const Op& op, bool nested) {
   X(p_saturated_nomatch) X(p_seq_mismatch) X(p_passed_entry) X(p_release_unfulfilled) X(p_release_named) \
   X(p_moved_mock_call) X(p_seq_destroy_nonempty) X(p_monitor_ok) X(p_monitor_unexpected) X(p_monitor_still_alive) \
   X(p_monitor_seq_violation) X(p_with_rejects) X(p_lr_differs) X(p_trace_records) X(p_ok_reports) X(p_rt_inverted) \
-  X(p_multi_monitor) X(p_assign_watched) X(flag_observations)
+  X(p_multi_monitor) X(p_assign_watched) X(p_seq_taken_over) X(flag_observations)
 
 void Stats::add(const Stats& o) {
   for (int i = 0; i < OP_KIND_COUNT; ++i) ops[i] += o.ops[i];
